@@ -61,6 +61,13 @@ class AddInteraction(Contract):
         else:
             from . import accum
             accum.inv_assume(ctx, g, view0, nodes, pairs)
+        if self.bound_n is not None:
+            # refutation mode only: a small closed world (any model is still a model of the unbounded VC)
+            a_, b_ = z3.Consts('a?cw b?cw', Node)
+            C = g['Cell_' + g.mainw()]
+            ctx.assume(z3.ForAll([a_, b_], z3.Implies(C[a_][b_] != 0, z3.Or(*[z3.Or(z3.And(a_ == p, b_ == q_), z3.And(a_ == q_, b_ == p))
+                                                                              for (p, q_) in pairs]))), 'shape')
+            ctx.assume(z3.ForAll([a_], z3.Implies(g['NodeIn'][a_], z3.Or(*[a_ == n_ for n_ in nodes]))), 'shape')
         if t is not None and e is not None:
             ctx.assume(e > t)                       # D23: e <= t is outside the contract
         pre = g.snapshot()
@@ -176,3 +183,79 @@ class AddInteraction(Contract):
         for comp in ('GAttr', 'ER', 'Frozen'):
             ctx.oblige('C01.frame.' + comp, g[comp] == pre[comp] if not g[comp].eq(pre[comp]) else z3.BoolVal(True),
                        tags=('C01',))
+
+    # ------------------------------------------------------------------ replay on the real code
+    def replay(self, engine, desc, args, G=None):
+        """Run the REAL add_interaction on a concrete pre-state and evaluate this contract's clauses on the
+        observed pre/post states.  Returns {'outcome', 'violated': [clause...], 'pre', 'post'}."""
+        from pyvc.concrete import NodeMap, abstract_graph, build_graph, graph_dump, check_concrete
+        from pyvc.interp import Ctx
+        import dynetx
+        G = G if G is not None else build_graph(desc)
+        assert G.__class__.__name__ == self.cls
+        nm = NodeMap()
+        refs = {}
+        empty = engine.empty_attr()
+        pre = abstract_graph(G, nm, 'self', refs, empty)
+        pre_dump = graph_dump(G)
+        u, v, t, e = args
+        try:
+            ret = G.add_interaction(u, v, t, e) if e is not None else G.add_interaction(u, v, t)
+            outcome = ('return', VNone if ret is None else VInt(0))
+            out_txt = 'return %r' % (ret,)
+        except Exception as ex:          # the real exception class is what the clause is about
+            outcome = ('raise', ex.__class__.__name__, str(ex))
+            out_txt = 'raise %s: %s' % (ex.__class__.__name__, ex)
+        post = abstract_graph(G, nm, 'self', refs, empty)
+        zu, zv = nm.node(u), nm.node(v)
+        other = z3.Const('N!other', Node)
+        U = list(nm.n2z.values()) + [other]
+        violated = {}
+        removal = bool(G.edge_removal)
+        for x in U:
+            for y in U:
+                ctx = Ctx(engine, [])
+                view0 = spec.View('pre')
+                c = Call(g=post, pre=pre, u=zu, v=zv, t=IntV(t) if t is not None else None,
+                         e=IntV(e) if e is not None else None, view0=view0, qx=x, qy=y, qx2=zu, qy2=zv,
+                         qq=fresh('qq', Int), qop=fresh('qop', Op), variant={}, removal=removal)
+                ctx.assume(nm.distinct([other], empty))
+                for (a, b) in {(zu, zv), (x, y)}:
+                    ctx.assume(spec.link_h(pre, view0, a, b))
+                self.finish(ctx, c, outcome)
+                for ob in ctx.obligations:
+                    if ob.name in violated:
+                        continue
+                    bad, m = check_concrete(ob.hyps, ob.goal)
+                    if bad:
+                        wit = {'x': str(x), 'y': str(y)}
+                        try:
+                            wit['q'] = str(m.eval(c.qq, model_completion=True))
+                        except Exception:
+                            pass
+                        violated[ob.name] = wit
+                if outcome[0] == 'raise':
+                    break
+            if outcome[0] == 'raise':
+                break
+        for p in pre.problems + post.problems:
+            violated.setdefault('C03.shape.representation: ' + p, {})
+        return {'outcome': out_txt, 'violated': violated, 'pre': pre_dump, 'post': graph_dump(G),
+                'call': 'add_interaction(%r, %r, %r, %r)' % (u, v, t, e)}
+
+    def replay_model(self, engine, m, call, n):
+        from pyvc.concrete import model_to_desc
+        ints = [x for x in (call.t, call.e) if x is not None]
+        desc = model_to_desc(m, call.pre, self.cls, n, ints)
+        ids = desc['node_ids']
+        def nid(z):
+            return ids[str(m.eval(z, model_completion=True))]
+        u, v = nid(call.u), nid(call.v)
+        t = m.eval(call.t, model_completion=True).as_long() if call.t is not None else None
+        e = m.eval(call.e, model_completion=True).as_long() if call.e is not None else None
+        for x in (u, v):
+            pass
+        rep = self.replay(engine, desc, (u, v, t, e))
+        rep['state'] = {k: v_ for k, v_ in desc.items() if k != 'node_ids'}
+        rep['args'] = [u, v, t, e]
+        return rep
